@@ -254,6 +254,14 @@ def run(chk):
                     '16777217.0', '2147483600.0', '0.1', '33554433!', '2.5#', '3.5#', '(-0.5#)'):
             texts.append(f'({lit} {opx} 3)')
             texts.append(f'(5 {opx} {lit})')
+    # comparisons of constants of different types whose values differ only by a fraction (the operands must be compared at
+    # the wider type, exactly as the generated code does)
+    pairs = [('2&', '2.5'), ('70000', '70000.3'), ('3%', '2.5#'), ('2&', '2.4!'), ('100000&', '100000.4'), ('3', '3.4999'), ('(-2&)', '(-2.5)'),
+             ('16777217&', '16777217!'), ('2.5', '2.5#'), ('0.1', '0.1#'), ('1&', '1.0000001#'), ('33554433&', '33554432!')]
+    for a_, b_ in pairs:
+        for cmp_ in ('=', '<>', '<', '>', '<=', '>='):
+            texts.append(f'({a_} {cmp_} {b_})')
+            texts.append(f'({b_} {cmp_} {a_})')
     nconst = len(texts)
     cres = real.pmap(const_task, texts)
     hits = {}
